@@ -569,6 +569,6 @@ def silent(nodes, i):
 def has_empty_body(nodes, root):
     for i in reachable(nodes, root):
         n = nodes[i]
-        if n["def"] in ("And", "Or", "JumpIfTrue", "JumpIfFalse", "NestedExpression") and n["right"] is not None and silent(nodes, n["right"]):
+        if n["def"] == "NestedExpression" and n["right"] is not None and silent(nodes, n["right"]):
             return True
     return False
